@@ -173,46 +173,80 @@ def run(ctx: Ctx) -> None:
     ctx.units["keywords_checked_under_align_values"] = n4
 
     # ---- O3 ------------------------------------------------------------------------------------------
-    ctx.rule("O3", "separate_complex_types is a stable partition (simple keys, then block-valued keys, each in original order) and does nothing when off", 3)
-    I = e.interp(allow_fork=False)
+    ctx.rule("O3", "separate_complex_types is a stable partition of every block's keys (plain keywords, then block-valued keys, each group in its original order), leaves the pairs inside key/value blocks and the SYMBOL keyword of a STYLE where they are, and does nothing when off - read off the text pprint() writes (evaluated)", 6)
+    locs = repo.loc("pprint", repo.func("pprint.PrettyPrinter.pprint"))
+
+    def heads(text) -> list:
+        """First word of every line of the printed text."""
+        lines_: list = [[]]
+        for pc in pai.as_sstr(text).pieces:
+            if isinstance(pc, str):
+                parts = pc.split("\n")
+                for i, part in enumerate(parts):
+                    if i:
+                        lines_.append([])
+                    if part:
+                        lines_[-1].append(part)
+            else:
+                lines_[-1].append(pc)
+        out = []
+        for ln in lines_:
+            h = None
+            for pc in ln:
+                if isinstance(pc, str):
+                    w = pc.strip(" \t")
+                    if w:
+                        h = w.split(" ")[0]
+                        break
+                elif isinstance(pc, Atom) and pc.name not in ("spacer",):
+                    h = pc.describe()
+                    break
+            out.append(h)
+        return out
 
     def mkd():
+        val = cd([("__type__", "validation"), ("layer", W("v1")), ("qstring", W("v2")), ("class", W("v3")), ("zone", W("v4"))])
+        md = cd([("__type__", "metadata"), ("style", W("m1")), ("wms_title", W("m2"))])
         return cd([
             ("__type__", "layer"),
             ("name", W("n")),
-            ("classes", [cd([("__type__", "class")])]),
+            ("classes", [cd([("__type__", "class"), ("styles", [cd([("__type__", "style"), ("symbol", W("s")), ("color", [SNum.sym("a", None, None)] * 3)])]), ("name", W("cn"))])]),
             ("type", SStr.atom("enumword", lower_is="point")),
-            ("metadata", cd([("__type__", "metadata")])),
+            ("metadata", md),
             ("projection", [W("p")]),
             ("extent", [SNum.sym("a", None, None)] * 4),
-            ("validation", cd([("__type__", "validation")])),
+            ("validation", val),
             ("data", W("d")),
         ])
 
+    layer_kw = ["NAME", "CLASS", "TYPE", "METADATA", "PROJECTION", "EXTENT", "VALIDATION", "DATA"]
     for on in (True, False):
-        holder = {}
-
-        def make(on=on):
-            holder["d"] = mkd()
-            return models.printer(I, separate_complex_types=on), [holder["d"], 0], {}
-
-        outs = I.explore("pprint.PrettyPrinter.separate_complex", make)
-        if len(outs) != 1 or outs[0].kind != "return":
-            raise AnalysisError(f"separate_complex not evaluable: {[(o.kind, o.exc) for o in outs]}")
-        keys = list(holder["d"].keys())
-        orig = ["__type__", "name", "classes", "type", "metadata", "projection", "extent", "validation", "data"]
-        if on:
-            want = ["__type__", "name", "type", "extent", "data", "classes", "metadata", "projection", "validation"]
-            ctx.check(keys == want, "O3", "separate_complex_types=True", repo.loc("pprint", repo.func("pprint.PrettyPrinter.separate_complex")), " ".join(keys), f"keys {orig} are reordered to {keys}; a stable partition gives {want}")
-        else:
-            ctx.check(keys == orig, "O3", "separate_complex_types=False", repo.loc("pprint", repo.func("pprint.PrettyPrinter.separate_complex")), "order untouched", f"with the option off the key order changes to {keys}")
-    # the SYMBOL keyword of a STYLE is a keyword wherever the STYLE stands: nested, or as the root of a partial Mapfile
-    for lvl in (1, 0):
-        holder = {}
-
-        def make2(lvl=lvl):
-            holder["d"] = cd([("__type__", "style"), ("symbol", W("s")), ("color", [SNum.sym("a", None, None)] * 3)])
-            return models.printer(I, separate_complex_types=True), [holder["d"]], {"level": lvl}
-
-        outs = I.explore("pprint.PrettyPrinter.separate_complex", make2)
-        ctx.check(list(holder["d"].keys()) == ["__type__", "symbol", "color"], "O3", f"STYLE SYMBOL keyword is not moved (STYLE at nesting level {lvl})", repo.loc("pprint", repo.func("pprint.PrettyPrinter.is_complex_type")), "", f"the SYMBOL keyword of a STYLE at level {lvl} is treated as a block: {list(holder['d'].keys())}")
+        text = L.pprint_text(mkd, lambda on=on: L.sym_options(end_comment=False, indent=2, spacer=" ", newlinechar="\n", quote='"', separate_complex_types=on), fork=False)
+        if len(text) != 1:
+            raise AnalysisError("pprint forks on the representative LAYER")
+        if text[0][1] != "return":
+            ctx.finding("O3", f"separate_complex_types={on}", locs, f"pprint raises {text[0][2]}")
+            continue
+        hs = heads(text[0][2])
+        # the LAYER's own keywords, in the order they are written (NAME occurs again inside the CLASS: first one counts)
+        first_layer = []
+        depth = 0
+        for h in hs:
+            if h in ("LAYER", "CLASS", "STYLE", "METADATA", "VALIDATION", "PROJECTION"):
+                if depth == 1 and h in layer_kw:
+                    first_layer.append(h)
+                depth += 1
+            elif h == "END":
+                depth -= 1
+            elif depth == 1 and h in layer_kw:
+                first_layer.append(h)
+        want = ["NAME", "TYPE", "EXTENT", "DATA", "CLASS", "METADATA", "PROJECTION", "VALIDATION"] if on else layer_kw
+        ctx.check(first_layer == want, "O3", f"separate_complex_types={on}: order of a LAYER's keywords", locs, " ".join(first_layer), f"with separate_complex_types={on} the LAYER keywords {layer_kw} are written in the order {first_layer}; " + ("a stable partition gives" if on else "the option is off, so the order must stay") + f" {want}")
+        pairs = [h for h in hs if isinstance(h, str) and h.startswith('"') and h.strip('"') in ("layer", "qstring", "class", "zone", "style", "wms_title")]
+        ctx.check(pairs == ['"style"', '"wms_title"', '"layer"', '"qstring"', '"class"', '"zone"'], "O3", f"separate_complex_types={on}: pairs inside METADATA / VALIDATION keep their order", locs, " ".join(pairs), f"with separate_complex_types={on} the pairs of the METADATA and VALIDATION blocks (keys style, wms_title / layer, qstring, class, zone) are written in the order {pairs}: entries whose key happens to be a block keyword are moved, so the reloaded dictionary differs in more than the position of block-valued keys")
+        inner = [h for h in hs if h in ("SYMBOL", "COLOR")]
+        ctx.check(inner == ["SYMBOL", "COLOR"], "O3", f"separate_complex_types={on}: STYLE SYMBOL keyword is not moved", locs, " ".join(inner), f"the SYMBOL keyword of a nested STYLE is treated as a block: written in the order {inner}")
+    # a STYLE as the root of a partial Mapfile
+    text = L.pprint_text(lambda: cd([("__type__", "style"), ("symbol", W("s")), ("color", [SNum.sym("a", None, None)] * 3)]), lambda: L.sym_options(end_comment=False, indent=2, spacer=" ", newlinechar="\n", quote='"', separate_complex_types=True), fork=False)
+    inner = [h for h in heads(text[0][2]) if h in ("SYMBOL", "COLOR")] if len(text) == 1 and text[0][1] == "return" else text
+    ctx.check(inner == ["SYMBOL", "COLOR"], "O3", "root STYLE: SYMBOL keyword is not moved", locs, "", f"the SYMBOL keyword of a root STYLE is treated as a block: {inner}")
